@@ -825,8 +825,12 @@ fn b_fft_stream(src: &mut Src, env: &Env) -> Case {
     let n = gen_len_small(src, env.cap::<Complex>());
     let data = gen_complex_tame(src, n);
     let (p, r) = StreamIn::new(data, vec![]);
-    let (blk, o) = FftStream::new(r, size);
-    let mut c = Case::new("FftStream", format!("len {n} size {size}"), Box::new(blk));
+    let (mut blk, o) = FftStream::new(r, size);
+    let threaded = src.chance(1, 3);
+    if threaded {
+        blk.threaded(true);
+    }
+    let mut c = Case::new("FftStream", format!("len {n} size {size} threaded {threaded}"), Box::new(blk));
     c.ins = vec![p];
     c.outs = vec![StreamOut::new(o)];
     c.needs_items = size;
@@ -1384,7 +1388,15 @@ fn b_cma(src: &mut Src, env: &Env) -> Case {
     let cap = env.cap::<Complex>();
     let ntaps = src.range(1, 8);
     let n = gen_len_small(src, cap);
-    let data = gen_complex_tame(src, n);
+    let mut data = gen_complex_tame(src, n);
+    // Now and then a few non-finite samples (what they do to the taps must
+    // not depend on how much input happened to be visible).
+    if n > 0 && src.chance(1, 3) {
+        for _ in 0..src.range(1, 3) {
+            let at = src.below(n);
+            data[at] = *src.pick(&[Complex::new(f32::INFINITY, 0.0), Complex::new(0.0, f32::NEG_INFINITY), Complex::new(f32::NAN, 1.0), Complex::new(f32::MAX, f32::MAX)]);
+        }
+    }
     let (p, r) = StreamIn::new(data, vec![]);
     let (blk, o) = CmaEqualizer::new(ntaps, 1.0, 0.001, r);
     let mut c = Case::new("CmaEqualizer", format!("len {n} ntaps {ntaps}"), Box::new(blk));
@@ -1445,6 +1457,24 @@ fn b_vector_source(src: &mut Src, env: &Env) -> Case {
     c
 }
 
+fn b_vector_source_u8(src: &mut Src, env: &Env) -> Case {
+    let cap = env.cap::<u8>();
+    let n = gen_len(src, cap).min(3 * cap + 5);
+    let data: Vec<u8> = gen_u8_vec(src, n);
+    let (mut blk, o) = VectorSource::new(data.clone());
+    let reps = *src.pick(&[1u64, 1, 2, 3]);
+    if reps != 1 {
+        blk.set_repeat(rustradio::Repeat::finite(reps));
+    }
+    let mut c = Case::new("VectorSource<u8>", format!("len {n} repeat {reps}"), Box::new(blk));
+    c.outs = vec![StreamOut::new(o)];
+    c.reference = Some(Box::new(move |c, complete| {
+        let exp: Vec<u8> = (0..reps).flat_map(|_| data.iter().copied()).collect();
+        expect_exact("VectorSource<u8>", &c.out_typed::<u8>(0).got, &exp, complete)
+    }));
+    c
+}
+
 fn b_null_sink(src: &mut Src, env: &Env) -> Case {
     let n = gen_len(src, env.cap::<u8>());
     let (p, r) = StreamIn::new(gen_u8_vec(src, n), vec![]);
@@ -1502,7 +1532,9 @@ fn b_hasher(src: &mut Src, env: &Env) -> Case {
 fn b_debug_filter(src: &mut Src, env: &Env) -> Case {
     let n = gen_len_small(src, env.cap::<u8>()).min(500);
     let data = gen_u8_vec(src, n);
-    let (p, r) = StreamIn::new(data, vec![]);
+    // Tags are part of what it prints.
+    let tags = if src.coin() { gen_tags(src, n, env.cap::<u8>()) } else { vec![] };
+    let (p, r) = StreamIn::new(data, tags);
     let (blk, o) = DebugFilter::new(r);
     let mut c = Case::new("DebugFilter", format!("len {n}"), Box::new(blk));
     c.ins = vec![p];
@@ -1592,6 +1624,7 @@ pub fn registry() -> Vec<Adapter> {
         ad!("VectorSink", b_vector_sink, true, false, false),
         ad!("Hasher", b_hasher, true, false, false),
         ad!("PduWriter", b_pdu_writer, true, false, false),
+        ad!("VectorSource<u8>", b_vector_source_u8, true, false, false),
         ad!("DebugFilter", b_debug_filter, false, false, false),
         ad!("Midpointer", b_midpointer, false, false, false),
         ad!("Wpcr", b_wpcr, false, false, false),
